@@ -109,7 +109,7 @@ class LaszipPointWriter(IPointWriter):
         return self.dest
 
     def write_points(self, points: PackedPointRecord) -> None:
-        points_bytes = np.frombuffer(points.array, np.uint8)
+        points_bytes = np.frombuffer(points.memoryview(), np.uint8)
         self.zipper.compress(points_bytes)
 
     def done(self) -> None:
